@@ -1563,8 +1563,11 @@ class LuaFormatterWriter(LuaASTEchoWriter):
         spaces = re.sub(br'\n\n+', b'\n\n', spaces)
 
         # Remove excess trailing whitespace at end of file.
+        # (Blanks after the last line without a line end are trailing
+        # blanks, not a line end.)
         if self._pos == len(self._tokens):
-            spaces = re.sub(br'[ \n]+$', b'\n', spaces)
+            spaces = re.sub(br'[ \n]*\n[ \n]*\Z', b'\n', spaces)
+            spaces = re.sub(br' +\Z', b'', spaces)
 
         # TODO: same-line spacing patterns:
         # - one space before and after binop
